@@ -9,7 +9,7 @@ from vlib.checks.c01 import operator, intervals
 
 ID = 'C07'
 LEVEL = 'exploration'
-RULE = ('curve x grid x history x trial leaf x time class {t_start, before, inside, t_end, shortly/far after, times with '
+RULE = ('curve (the five shipped ones and four further polygons / polylines: thin plate, offset rectangle, staircase, open polyline) x grid x history x trial leaf x time class {t_start, before, inside, t_end, shortly/far after, times with '
         'parabolic ratio h^2/tau in [0.5, 16]} x position class {interior, exact end points, 1e-8..1e-2 h outside, '
         '1e-2..3 h outside, 0, L, Gauss nodes of other elements, uniform, across the seam, on the neighbouring side} -- '
         'operator built after the history or kept across it with the leaves re-registered as the adaptive driver does -- evaluate vs a 1-D graded reference integral at two resolutions with the three tolerances of the property '
@@ -249,7 +249,7 @@ def body(case, rec):
 
 def cases():
     tcs = ['inside', 'at_end', 'far_after', 'tau_start', 'tau_end', 'tau_end', 'shortly_after', 'at_start']
-    pt = points.point_cases(time_classes=tcs).map(lambda c: dict(c, kind='point'))
+    pt = points.point_cases(time_classes=tcs, polygons=True).map(lambda c: dict(c, kind='point'))
     ig = st.one_of(pairs.target_cases(time_classes=['separated', 'touch_after']),
                    pairs.history_cases().map(lambda c: dict(c, tc='separated'))).map(lambda c: dict(c, kind='integral'))
     return st.one_of(pt, pt, pt, pt, pt, pt, pt, ig)
